@@ -55,7 +55,7 @@ class Checker:
 
     def bad(self, clause: str, who: str, predicted: bool, what: str):
         sig = {"fam": self.case["fam"], "top": self.case["top"], "clause": clause, "who": who, "causes": self.causes,
-               "predicted": predicted, "form": self.case["form"], "req": self.case["req"]}
+               "predicted": predicted, "form": self.case["form"], "req": self.case["req"], "agent": self.case["agent"]}
         if len(self.out["violations"]) < 20:
             self.out["violations"].append({"sig": sig, "what": f"{what} [cwd {self.cwd}={self.case['cwds'][self.cwd]}]", "case": self.ident})
 
@@ -179,11 +179,12 @@ def load_case(griffe, layout, root: str, case: dict, cwd: Path):
     else:
         sp = layout.search_paths(case["form"], cwd)
         spec = "pkg"
-    loader = griffe.GriffeLoader(search_paths=sp, allow_inspection=layout.has_so)
+    inspect = case["agent"] == "inspect"
+    loader = griffe.GriffeLoader(search_paths=sp, allow_inspection=layout.has_so or inspect, force_inspection=inspect)
     try:
         return loader.load(spec, find_stubs_package=case["fam"] == "stubs")
     finally:
-        if layout.has_so:
+        if layout.has_so or inspect:
             purge_imports("pkg")
 
 
@@ -206,6 +207,13 @@ def run_case(griffe, layout, root: str, case: dict, ident: dict) -> dict:
 
 def run_group(group: list) -> list:
     """All cases of one layout: [(index, case)] -> [(index, result)]."""
+    try:
+        return _run_group(group)
+    except BaseException as exc:  # noqa: BLE001  (also SystemExit of gverif.common.die: report, never leave the parent waiting)
+        return [(group[0][0], {"error": f"{exc!r}: {traceback.format_exc()[-800:]}"})]
+
+
+def _run_group(group: list) -> list:
     griffe = ensure_repo()
     first = group[0][1]
     if any(f["r"][-1] == "_bisect.so" for f in first["disk"]) and so_source() is None:
@@ -227,7 +235,7 @@ def run_group(group: list) -> list:
 
 def layout_key(c: dict):
     return (c["fam"], c["top"], tuple((k["i"], tuple(sorted(k["ks"]))) for k in sorted(c["kids"], key=lambda k: k["i"])),
-            c["sg"], tuple(sorted(c["skids"])), tuple(c["chain"]))
+            c["sg"], tuple(sorted(c["skids"])), tuple(c["chain"]), c["agent"])
 
 
 def case_key(c: dict):
